@@ -197,6 +197,8 @@ fn judge(ctx: &mut Ctx, inst: &str, jd: &Value, transcribed: &Value, obs: &Value
             let exp = json!({"ok": true, "v": jd["v"], "str": jd["str"]});
             if ctx.check("C02", "strict spelling is accepted", inst, obs["ok"] == json!(true), &exp, obs) {
                 let okv = ctx.check("C02", "components recovered exactly", inst, obs["v"] == jd["v"], &exp, obs);
+                ctx.check("C07", "namespace and subpath are exactly the non-skipped decoded pieces", inst,
+                          obs["v"]["ns"] == jd["v"]["ns"] && obs["v"]["sub"] == jd["v"]["sub"], &exp, obs);
                 if inst == "Purl" {
                     ctx.check("C08", "typed value (name rule)", inst, obs["v"] == jd["v"], &exp, obs);
                 }
@@ -881,6 +883,95 @@ pub fn run_qseq(ctx: &mut Ctx, case: &Value) {
     }
 }
 
+// --------------------------------------------------------------------------- package types, combined names
+
+#[cfg(feature = "pt")]
+pub fn run_tlookup(ctx: &mut Ctx, case: &Value) {
+    use purl::PackageType;
+    let s = from_cps(&case["s"]);
+    let r = catch_unwind(AssertUnwindSafe(|| <PackageType as FromStr>::from_str(&s)));
+    let exp = &case["exp"];
+    let obs = match &r {
+        Err(_) => json!({"panic": true}),
+        Ok(Err(_)) => json!({"some": false}),
+        Ok(Ok(t)) => json!({"some": true, "v": cps(t.name())}),
+    };
+    ctx.check("C06", "no panic", "PackageType", obs.get("panic").is_none(), &Value::Null, &obs);
+    ctx.check("C15", "from_str accepts exactly the names, case-insensitively", "PackageType", &obs == exp, exp, &obs);
+    if let Ok(Ok(t)) = r {
+        let name = t.name();
+        let views = json!({
+            "display": t.to_string() == name,
+            "as_ref": AsRef::<str>::as_ref(&t) == name,
+            "into_str": <&'static str>::from(t) == name,
+            "package_type": t.package_type() == name,
+            "lower": name == name.to_ascii_lowercase(),
+            "reparse": <PackageType as FromStr>::from_str(name).ok() == Some(t),
+            "upper_reparse": <PackageType as FromStr>::from_str(&name.to_ascii_uppercase()).ok() == Some(t),
+        });
+        let all = views.as_object().map(|m| m.values().all(|b| b == &Value::Bool(true))).unwrap_or(false);
+        ctx.check("C15", "name(), Display, AsRef, From, package_type() agree on one lower-case name", "PackageType", all, &Value::Null, &views);
+        #[cfg(feature = "sd")]
+        {
+            let js = serde_json::to_string(&t).unwrap_or_default();
+            let want = format!("\"{}\"", name);
+            let back = serde_json::from_str::<PackageType>(&want).ok();
+            ctx.check("C15", "serde form is the name", "PackageType", js == want && back == Some(t), &json!(want), &json!(js));
+        }
+    }
+    if ctx.samples.len() < 2 {
+        ctx.samples.push(json!({"kind": "type lookup", "input": s, "observed": obs}));
+    }
+}
+
+#[cfg(feature = "pt")]
+pub fn run_comb(ctx: &mut Ctx, case: &Value) {
+    use purl::{PackageType, Purl};
+    let Ok(t) = <PackageType as FromStr>::from_str(&from_cps(&case["t"])) else {
+        eprintln!("comb: unknown type");
+        std::process::exit(2);
+    };
+    let s = from_cps(&case["s"]);
+    let r = catch_unwind(AssertUnwindSafe(|| Purl::builder_with_combined_name(t, &s)));
+    let Ok(b) = r else {
+        ctx.check("C06", "no panic", "Purl", false, &Value::Null, &json!({"panic": true}));
+        return;
+    };
+    let split = json!({"ns": cps(&b.parts.namespace), "name": cps(&b.parts.name)});
+    ctx.check("C18", "combined name split at the ecosystem separator", "Purl", split == case["split"], &case["split"], &split);
+    let untouched = b.parts.version.is_empty() && b.parts.subpath.is_empty() && b.parts.qualifiers.is_empty() && b.package_type == t;
+    ctx.check("C18", "constructor sets nothing else", "Purl", untouched, &Value::Null, &Value::Null);
+    let o = outcome::<PackageType, purl::PackageError>(catch_unwind(AssertUnwindSafe(|| b.clone().build())));
+    ctx.check("C06", "no panic", "Purl", o.get("panic").is_none(), &Value::Null, &o);
+    let exp = &case["out"];
+    if exp["ok"] == json!(true) {
+        ctx.check("C18", "built value", "Purl", &o == exp, exp, &o);
+    } else {
+        ctx.check("C18", "build refused", "Purl", o["ok"] == json!(false), exp, &o);
+    }
+    if let Ok(p) = b.build() {
+        let joined = catch_unwind(AssertUnwindSafe(|| p.combined_name().into_owned()));
+        match joined {
+            Err(_) => {
+                ctx.check("C06", "no panic", "Purl", false, &Value::Null, &json!({"panic": true}));
+            },
+            Ok(j) => {
+                ctx.check("C18", "combined_name joins with the ecosystem separator", "Purl", cps(&j) == case["joined"], &case["joined"], &cps(&j));
+                if case["invertible"] == json!(true) {
+                    let b2 = Purl::builder_with_combined_name(t, &j);
+                    let same = &*b2.parts.namespace == p.namespace().unwrap_or("") && &*b2.parts.name == p.name();
+                    ctx.check("C18", "constructor inverts combined_name()", "Purl", same, &o["v"], &json!({"ns": cps(&b2.parts.namespace), "name": cps(&b2.parts.name)}));
+                }
+                let o2 = outcome::<PackageType, purl::PackageError>(Ok(Ok(p.clone())));
+                universal(ctx, "Purl", &p, &o2, &[&exp["v"]], "build");
+            },
+        }
+    }
+    if ctx.samples.len() < 2 {
+        ctx.samples.push(json!({"kind": "combined name", "type": case["t"], "input": s, "split": split}));
+    }
+}
+
 #[derive(Default, Clone)]
 pub struct Opts {
     pub serde: bool,
@@ -894,6 +985,10 @@ pub fn run_case(ctx: &mut Ctx, case: &Value, opts: &Opts) {
         "bseq" => run_bseq(ctx, case),
         "qop" => run_qop(ctx, case),
         "qseq" => run_qseq(ctx, case),
+        #[cfg(feature = "pt")]
+        "tlookup" => run_tlookup(ctx, case),
+        #[cfg(feature = "pt")]
+        "comb" => run_comb(ctx, case),
         other => {
             eprintln!("unknown case kind {:?} at line {}", other, ctx.line);
             std::process::exit(2);
